@@ -14,7 +14,8 @@ fn parts(sc: &Scenario) -> (&Workload, &SchedSpec) {
         | Scenario::AltNumbering { w, spec, .. }
         | Scenario::Determinism { w, spec }
         | Scenario::Permutation { w, spec, .. }
-        | Scenario::Transient { w, spec } => (w, spec),
+        | Scenario::Transient { w, spec }
+        | Scenario::AfterOther { w, spec, .. } => (w, spec),
     }
 }
 
@@ -25,7 +26,8 @@ fn with_spec(sc: &Scenario, s: SchedSpec) -> Scenario {
         | Scenario::AltNumbering { spec, .. }
         | Scenario::Determinism { spec, .. }
         | Scenario::Permutation { spec, .. }
-        | Scenario::Transient { spec, .. } => *spec = s,
+        | Scenario::Transient { spec, .. }
+        | Scenario::AfterOther { spec, .. } => *spec = s,
     }
     c
 }
@@ -33,7 +35,10 @@ fn with_spec(sc: &Scenario, s: SchedSpec) -> Scenario {
 fn with_workload(sc: &Scenario, nw: Workload) -> Option<Scenario> {
     let mut c = sc.clone();
     match &mut c {
-        Scenario::ModelEq { w, .. } | Scenario::Determinism { w, .. } | Scenario::Transient { w, .. } => *w = nw,
+        Scenario::ModelEq { w, .. }
+        | Scenario::Determinism { w, .. }
+        | Scenario::Transient { w, .. }
+        | Scenario::AfterOther { w, .. } => *w = nw,
         Scenario::Permutation { w, perm, .. } => {
             if nw.sols.len() != w.sols.len() {
                 // a solution was dropped: keep the relative order of the rest
